@@ -1,5 +1,6 @@
 import KDVerif.Driver.J
 import KDVerif.Model.Cache
+import KDVerif.Model.C19Spec
 open Lean KDVerif.J
 
 namespace KDVerif.Cache.Driver
@@ -37,11 +38,17 @@ def runSched (j : Json) : Except String Json := do
   let s := run f t sched s0
   let evs := events f t sched s0
   let dictL := (List.range fl.length).filterMap (fun i => (s.sh.dict i).map (fun v => ofNatList [i, v]))
+  -- the mutable-payload variant (`Model/C19Spec`): samples are heap cells, the transform works in place on what is handed out,
+  -- the cache hands out a copy (as the repaired `SharedDictDataset` does)
+  let ms := Mut.mrun true f t sched (Mut.minit progs)
+  let mdictL := (List.range fl.length).filterMap (fun i => (Mut.cachedContents ms i).map (fun v => ofNatList [i, v]))
   pure (Json.mkObj [
     ("outs", Json.arr (s.readers.map (fun rd => Json.arr (rd.out.map resJson).toArray)).toArray),
     ("loads", ofNatList s.sh.loads),
     ("tapps", ofNat s.sh.tapps.length),
     ("dict", Json.arr dictL.toArray),
+    ("mut_outs", Json.arr (ms.readers.map (fun rd => Json.arr (rd.out.map resJson).toArray)).toArray),
+    ("mut_dict", Json.arr mdictL.toArray),
     ("trace", Json.arr ((sched.zip evs).map (fun x => evJson x.1 x.2)).toArray),
     ("done", Json.arr (s.readers.map (fun rd => Json.bool (rd.todo.isEmpty && rd.pc == .idle))).toArray)])
 
